@@ -253,7 +253,9 @@ def tok_rules(repo, tier="quick"):
         if not calls:
             raise AnalysisError("ring branch no longer calls collect_ring_number", fi.where(node))
         c0, n0 = calls[0]
-        arg_atom = call_arg(c0, 2, "node_count")
+        crn = repo.function("read_fragments:collect_ring_number")
+        atom_param = crn.positional_params[2] if len(crn.positional_params) > 2 else "node_count"
+        arg_atom = call_arg(c0, 2, atom_param)
         ok_atom = isinstance(arg_atom, ast.Name) and arg_atom.id == T.PREV
         (obs.append(ob_ok("TOK.T2-ring", fi, c0, construct="collect_ring_number(iter, token, previous atom, rings)", instance="atom",
                           reason="ring closures belong to the atom written before them")) if ok_atom else
@@ -264,10 +266,17 @@ def tok_rules(repo, tier="quick"):
         collected = None
         if isinstance(st, ast.Assign) and isinstance(st.targets[0], ast.Tuple) and len(st.targets[0].elts) == 4 and isinstance(st.targets[0].elts[2], ast.Name):
             collected = st.targets[0].elts[2].id
+        elif isinstance(st, ast.Assign) and len(st.targets) == 1 and isinstance(st.targets[0], ast.Name) and st.value is c0:
+            # the collector hands back only the collected text (iterator and ring table are updated in place)
+            collected = st.targets[0].id
+        direct_append = isinstance(st, (ast.AugAssign, ast.Assign)) and aug_like(st) and aug_like(st)[0] == T.TEXT and aug_like(st)[1] is ast.Add and aug_like(st)[2] is c0
         apps = T.text_appends(body)
         ok_app = collected is not None and any(isinstance(a[1], ast.Name) and a[1].id == collected for a in apps) and \
             T.all_paths_pass(body, {a[0] for a in apps if isinstance(a[1], ast.Name) and a[1].id == collected}) and \
             all(isinstance(a[1], ast.Name) and a[1].id == collected for a in apps)
+        if direct_append:
+            # text += collect_ring_number(...)
+            ok_app = all(a[1] is c0 for a in apps) and T.all_paths_pass(body, {a[0] for a in apps})
         (obs.append(ob_ok("TOK.T0-conservation", fi, node, construct="ring: text += collected digits", instance="ring",
                           reason="exactly the consumed ring characters are appended")) if ok_app else
          obs.append(ob_fail("TOK.T0-conservation", fi, node, construct="ring branch appends %s" % [a[1] if isinstance(a[1], str) else ast.unparse(a[1]) for a in apps],
@@ -517,6 +526,9 @@ def _collect_ring(repo):
         except Unsupported as err:
             return [ob_undecided("TOK.T0-conservation", fi, construct="collect_ring_number on %r" % text, instance="ring-collect",
                                  reason="outside the evaluator's language: %s" % err)]
+        # (iterator, token, text, rings) or just the text
+        if kind == "return" and (isinstance(val, str) or hasattr(val, "concrete")):
+            val = (None, None, val, None)
         if kind != "return" or not isinstance(val, tuple) or len(val) != 4:
             bad.append((text, "ends with %s %r" % (kind, val if kind == "raise" else type(val).__name__)))
             continue
@@ -660,7 +672,12 @@ def _descriptor_rules(T, bb, darm, dnode):
                         isinstance(tst.comparators[0], ast.Constant) and tst.comparators[0].value == "]" and adv and \
                         not [g for g in guards_of(fi, d.node) if g[2] in cfg.loops.get(loops[0].id, set())]:
                     acc_ok = True
+    # the same collection started from the empty string: text = ""; while ch != ']': text += ch; ch = next(iter), with the kind read off text[:1]
+    empty_start = [d for d in tdefs if d.kind == "assign" and isinstance(d.value, ast.Constant) and d.value.value == ""]
+    if not init_ok and empty_start and acc_ok and T.peek_var.replace(" ", "") in (text_name + "[:1]", text_name + "[0]", text_name + "[0:1]"):
+        init_ok = True
     extra_defs = [d for d in tdefs if not ((d.kind == "assign" and isinstance(d.value, ast.Name) and d.value.id == T.peek_var) or d.kind == "aug" or
+                                           (d.kind == "assign" and isinstance(d.value, ast.Constant) and d.value.value == "" and init_ok) or
                                            (d.ast is not None and isinstance(d.ast, ast.Assign) and aug_like(d.ast)))]
     (obs.append(ob_ok("TOK.T5-descriptor", fi, ap, construct="text = kind char; while ch != ']': text += ch; ch = next(iter)", instance="text",
                       reason="kind and label are collected completely, up to the closing bracket")) if init_ok and acc_ok and not extra_defs else
